@@ -159,6 +159,16 @@ def _malformations(struct):
             for i1 in range(nfl):  # merely renames the level (valid table), otherwise it leaves holes
                 for i2 in range(nfl):
                     out.append(dict(kind='move-fl', ph=ph, rows=[3 * i0, 3 * i1 + 1, 3 * i2 + 2], to='above'))
+    # several rows removed so that the per-level and/or per-mass row counts stay equal to each other
+    # although the rows are no grid (level i lacks mass a_i, mass j lacks level l_j, each level keeps
+    # one mass only). All assignments: the constant ones leave a smaller complete grid.
+    for ph in ('climb', 'cruise'):
+        nfl = len(st['fls'][ph])
+        for a in itertools.product(range(3), repeat=nfl):
+            out.append(dict(kind='remove-per-level', ph=ph, rows=[3 * i + a[i] for i in range(nfl)]))
+            out.append(dict(kind='keep-one-per-level', ph=ph, rows=[3 * i + j for i in range(nfl) for j in range(3) if j != a[i]]))
+        for lv in itertools.product(range(nfl), repeat=3):
+            out.append(dict(kind='remove-per-mass', ph=ph, rows=[3 * lv[j] + j for j in range(3)]))
     nd = len(st['fls']['descent'])
     for r in range(nd):
         out.append(dict(kind='remove', ph='descent', r=r))
@@ -210,6 +220,15 @@ def sublattices(tier, seed):
     subs.append(dict(name='phase first-use orders (fresh model each)',
                      axes=dict(structure=['s3', 'sp'], row_order=['gen', 'rev'], perm=[list(p) for p in itertools.permutations(range(3))]),
                      cases=cases))  # fmt: skip
+    # phases with a flight-level range narrower than the whole table: every integer edge level
+    # (thorough: half levels too), each phase, each side; the phase's own levels in both metre
+    # spellings and the states just outside the phase's own range
+    lv = [float(x) for x in range(1, 451)] + ([x + 0.5 for x in range(1, 450)] if tier == 'thorough' else [])
+    cases = [dict(t=[f'edge/{ph}/{side}/{x!r}', 'lin', 'gen', 'std'], q=dict(k='edge-sweep', ph=ph, side=side))
+             for ph in rb.PHASES for side in ('bottom', 'top') for x in lv]  # fmt: skip
+    subs.append(dict(name='per-phase edge levels (phase range narrower than the table)',
+                     axes=dict(phase=list(rb.PHASES), side=['bottom', 'top'], edge_level=[lv[0], '...', lv[-1], f'{len(lv)} values']),
+                     cases=cases))  # fmt: skip
     # malformed tables
     cases = []
     mstructs = ['s3'] + (['s4', 'sp'] if tier == 'thorough' else [])
@@ -217,7 +236,8 @@ def sublattices(tier, seed):
         for o in ('gen', 'rev') + (('stride',) if tier == 'thorough' else ()):
             cases += [dict(t=[s, 'lin', o, 'std'], q=dict(k='malformed', mal=m)) for m in _malformations(s)]
     subs.append(dict(name='malformed tables (load)', axes=dict(structure=mstructs, malformation=['remove', 'dup+missing', 'dup-only', 'drop-mass', 'add-mass',
-                                                                                              'move-fl (1, 2 or 3 rows)', 'move-mass']),
+                                                                                              'move-fl (1, 2 or 3 rows)', 'move-mass',
+                                                                                              'remove-per-level', 'remove-per-mass', 'keep-one-per-level']),
                      cases=cases))  # fmt: skip
     # PTF files
     cases = []
@@ -573,6 +593,30 @@ def _sweep_shipped(t, q):
     return f'shipped-sweep:{n}-queries', _dedupe(vio)
 
 
+def _edge_sweep(t, q):
+    """One table whose phase q['ph'] has its own bottom or top edge level inside the whole table's
+    range: all of that phase's levels in both metre spellings, and the just-outside states of the
+    phase's own range (which lie inside the range of the other phases)."""
+    pm, ref = _model(t, fresh=True)
+    ph = q['ph']
+    vio = []
+    fls = ref.fls[ph]
+    msels = [0, 'max'] if ref.mass_dependent(ph) else [1]
+    for fl in fls:
+        for form in ('b', 'a'):
+            for ms in msels:
+                _check_point(pm, ref, ph, fl, ms, _alt(fl, form), vio, f'phase edge sweep node[{form}]', 'node')
+    U = _S['U']
+    edge = fls[0] if q['side'] == 'bottom' else fls[-1]
+    sgn = -1.0 if q['side'] == 'bottom' else 1.0
+    for fl in (edge + sgn * max(abs(edge) * 1e-6, 1e-4), edge + sgn * 1.0):
+        kind, res = _call(pm, ph, fl / U.METERS_TO_FL, ref.masses[ph][0])
+        if kind == 'ok':
+            vio.append(V('outside-state-not-rejected', f'phase {ph} with own range {fls[0]}..{fls[-1]} (whole table '
+                                                       f'{rb.EDGE_SPAN}): FL {fl!r} returned {res}'))  # fmt: skip
+    return f'edge-sweep:{q["side"]}', _dedupe(vio)
+
+
 def _dedupe(vio, keep=3):
     """Keep at most `keep` records per (kind, finding) of a multi-query case."""
     seen = {}
@@ -600,7 +644,7 @@ def _phase_order(t, q):
 def _malformed(t, q):
     m = q['mal']
     blk = rb.blocks(t[0], t[1])
-    st = rb.STRUCTS[t[0]]
+    st = rb.get_struct(t[0])
     missing = None
     must_refuse = False
     must_accept = False
@@ -659,9 +703,18 @@ def _malformed(t, q):
         # decided from the rows themselves: refusal is required exactly when some phase is no grid
         must_refuse = bool(rb.incomplete_phases([r for b in blk.values() for r in b]))
         must_accept = not must_refuse
+    elif m['kind'] in ('remove-per-level', 'remove-per-mass', 'keep-one-per-level'):
+        rows = blk[m['ph']]
+        missing = dict(rows[m['rows'][0]])
+        blk[m['ph']] = [r for k, r in enumerate(rows) if k not in set(m['rows'])]
+        allrows = [r for b in blk.values() for r in b]
+        must_refuse = bool(rb.incomplete_phases(allrows))
+        # a complete smaller grid is a valid table only if it still has three masses and two levels
+        shape = rb.phase_shape(allrows)[m['ph']]
+        must_accept = (not must_refuse) and shape[1] == 3 and shape[0] >= 2
     rows = rb.order_rows(blk, t[2])
     vio = []
-    label = m['kind'] + (f':{len(m["rows"])}' if 'rows' in m else '')
+    label = m['kind'] + (f':{len(m["rows"])}' if m['kind'].startswith('move') else '')
     try:
         pm = _build(rows, t[3])
     except Exception as e:  # noqa: BLE001
@@ -673,7 +726,7 @@ def _malformed(t, q):
     if must_refuse:
         fid = None
         detail = f'{m} in table {t}: accepted at load although ({missing["fl"]}, {missing["mass"]}) is missing from the {m["ph"]} grid'
-        if m['kind'] in ('dup+missing', 'move-fl', 'move-mass'):
+        if m['kind'] != 'remove':
             kind, res = _call(pm, m['ph'], missing['fl'] / _S['U'].METERS_TO_FL, missing['mass'])
             detail += f'; evaluating the missing node gives {res!r}, the well-formed table has {(missing["tas"], missing["rocd"], missing["fuel_flow"])}'
         if m['kind'] == 'dup+missing':
@@ -683,13 +736,21 @@ def _malformed(t, q):
         return f'load-accepted:{label}', vio
     # accepted and allowed to be: the model must reproduce the rows it was given
     ref = rb.RefTable(rows)
+    late = []
     for ph in rb.PHASES:
         if not ref.fls[ph] or len(ref.fls[ph]) < 2:
             continue
+        if not must_accept:
+            # a table outside the quantifier (e.g. a phase left with two masses) may also be refused
+            # late, by every evaluation in that phase; numbers, if returned, must still be the table's
+            fl0, m0 = sorted(ref.nodes[ph])[0]
+            if _call(pm, ph, _alt(fl0, 'a'), m0)[0] == 'raise':
+                late.append(ph)
+                continue
         for (fl, mass) in sorted(ref.nodes[ph]):
             _check_point(pm, ref, ph, fl, [sorted({k[1] for p in rb.PHASES for k in ref.nodes[p]}).index(mass), 0.0],
                          _alt(fl, 'a'), vio, f'after {m["kind"]}', 'node')  # fmt: skip
-    return f'load-accepted:{label}', _dedupe(vio)
+    return f'load-accepted:{label}' + (':refused-at-evaluate' if late else ''), _dedupe(vio)
 
 
 def _ptf(q):
@@ -791,6 +852,8 @@ def _dispatch(case):
         return _phase_order(case['t'], q)
     if k == 'shipped-sweep':
         return _sweep_shipped(case['t'], q)
+    if k == 'edge-sweep':
+        return _edge_sweep(case['t'], q)
     return _run_query(case['t'], q)
 
 
